@@ -1056,11 +1056,20 @@ func c06TopEval(c *Ctx, cs c06Case, got, errs string) {
 	}
 	col := len(p.SampleType) - 1
 	want := c.Drv.Ask(fmt.Sprintf("total %d %s", col, cs.Profile))
-	if cs.Rel {
-		rep := c.Drv.Ask("apply.model " + ot + " " + cs.Profile)
-		if !strings.HasPrefix(rep, "ok ") {
-			return
+	rep := c.Drv.Ask("apply.model " + ot + " " + cs.Profile)
+	if rep == "err" || rep == "panic" {
+		// the options do not compile (e.g. a malformed range read as a regexp): pprof must refuse them
+		c.Res.Hit("top:model-" + rep)
+		if errs == "" {
+			c.Disagree("C06/top-model/model-"+rep+"-cli-ok", "model rejects the options, pprof -top accepts them", "correspondence compileTagFilter model ~ pprof", cs)
 		}
+		return
+	}
+	if !strings.HasPrefix(rep, "ok ") {
+		c.Disagree("C06/top-model/"+firstWord(rep), trunc(rep), "correspondence applyFocus model ~ pprof", cs)
+		return
+	}
+	if cs.Rel {
 		want = c.Drv.Ask(fmt.Sprintf("total %d %s", col, rep[3:strings.Index(rep, " | ")]))
 	}
 	c.Res.ModelCompared++
